@@ -12,7 +12,7 @@ CHECKS = {
         category="exploration",
         text="Every scheduling pass observed (synthetic marker rules through processing.fix/chain: random, plus a bounded configuration space enumerated completely in the thorough tier; and every pass of the real rules inside format_code on the repository examples) is judged by the five clauses of the statement: all-or-nothing per transaction, no overlapping scheduled ranges, drops only for a permitted reason, rollback of unparsable passes, ignored lines untouched; the pass result must equal the reference splice of the scheduled rewrites. Held on the executions produced, not a proof.",
         design_ref="DESIGN.md §4 C10",
-        note="Trusts core.get_charnos for the ranges the scheduler sees (span correctness is C13) and Python's ast.parse as the validity judge; implicit transactions are ordered by yield position.",
+        note="Trusts core.get_charnos for the ranges the scheduler sees (span correctness is C13) and Python's ast.parse as the validity judge; implicit transactions are ordered by yield position. A rollback is also judged against the plain splice of the schedule (the implementation misplacing a rewrite must not justify its own rollback).",
     ),
     "C12": dict(
         technique="runtime differential monitor: the real matcher (match_template / finditer) runs beside an independent, complete reference matcher working from the pattern string; bounded exhaustive enumeration of quantifier lists + patterns abstracted from real code + self-match",
@@ -64,7 +64,7 @@ CHECKS = {
         note="Validity = ast.parse of CPython 3.12 (indented fragments after dedent); the write-guard enumeration is complete for the stated factor levels, the validity part is sampling.",
     ),
     "C04": dict(
-        technique="runtime monitor at the API boundary in isolated worker processes: exception capture (BaseException), CPU-time budget (RLIMIT-style timers, process time), non-whitespace hand-back check for invalid input, effect sanitizer",
+        technique="runtime monitor at the API boundary in isolated worker processes: exception capture (BaseException), CPU-time budget (RLIMIT-style timers, process time), sys.monitoring RAISE events for MemoryError under a 4 GiB address-space cap (an allocation the tool swallows would otherwise leave no trace), non-whitespace hand-back check for invalid input, effect sanitizer",
         category="exploration",
         text="format_code is called on a zoo of 49 constructs covering Python 3.12 syntax in 9 positions (first, last, without trailing newline, nested in def/class, last in an if, indented fragment with spaces and tabs), pairs of constructs, 70 adversarial constant expressions in 16 condition templates, ~120 degenerate strings (empty, BOM, NUL, unterminated, deep nesting, long lines), 700 (6000) character-level mutants, repository examples and standard-library files, under 7 option vectors. Any exception, a result that is not a string, CPU time above max(20 s, 400 s/kB), a dead worker, an effect, or an invalid input not handed back modulo whitespace is a violation.",
         design_ref="DESIGN.md §4 C04",
@@ -78,32 +78,32 @@ CHECKS = {
         note="Tolerated: whitespace inside bare string statements (doc-strings to black) and the AnnAssign.simple flag black changes by dropping redundant parentheses.",
     ),
     "C05": dict(
-        technique="runtime invariant at the cache hooks (every return of core.parse / core.compile_template is compared with a fresh parse / the first serialisation; caches audited after every call for attribution) + replay of requests after random call histories against one-shot fresh-interpreter references + every rule twice in a row",
+        technique="runtime invariant at the cache hooks (every return of core.parse / core.compile_template is compared with a fresh parse / the first serialisation; caches audited after every call for attribution) + replay of requests after random call histories against one-shot fresh-interpreter references + every rule twice in a row, and again after the parsed program was evicted from the cache and the heap has moved (tie inputs, statements squeezed onto one line, small on-disk worlds for the import rules)",
         category="exploration",
         text="160 (900) random histories of 3-14 format_code / single-rule / sub / findall calls (35% on the request's own text, other options, other inputs) are each followed by a request whose result must equal, byte for byte, the result of the same request in a fresh interpreter; each of the 85 pipeline rules is called twice in a row on ~190 inputs (repository examples, construct zoo, fixed mutation-prone texts) and must return the same text both times and the same as a fresh process; during all of it ~9M cache returns per quick run are checked for fidelity and the parse cache is audited after each call so that a corruption is attributed to the call that caused it.",
         design_ref="DESIGN.md §4 C05",
         note="Fidelity = ast.dump(include_attributes=True) equality with a fresh ast.parse of the cache key; private attributes rules may attach to nodes are not part of a tree.",
     ),
     "C06": dict(
-        technique="runtime replay of identical requests under perturbed process state (PYTHONHASHSEED x PYTHONMALLOC x heap junk shifting id()-ordered sets) and perturbed schedules (worker count x shuffled file list x injected per-file delays via a wrapper around format_file in the pool workers); byte comparison with the n_cores=1 run and an independent sequential re-implementation",
+        technique="runtime replay of identical requests under perturbed process state (PYTHONHASHSEED x PYTHONMALLOC x heap junk shifting id()-ordered sets) and perturbed schedules (worker count x shuffled file list x injected per-file delays via a wrapper around format_file in the pool workers); byte comparison with the n_cores=1 run and an independent sequential re-implementation; inputs constructed so that two candidates tie under the tool's own sort key, and the same request repeated inside one process after the heap has moved",
         category="exploration",
         text="~1000 requests (format_code under 4 option vectors on inputs where several candidates compete inside set-iterating code and on repository examples; findall / search / sub(count=1) with statement-sequence patterns; synthetic colliding insertions through processing.chain) are executed in four process variants and must give identical bytes. Five (14) generated trees of 12-30 files in nested folders (files needing two passes, already clean files, skip_file, invalid files, __init__.py, client files passed as preserved) are formatted with n_cores in {1, 2, 5, 16, ...}, shuffled file lists, seeded 0-150 ms delays, safe on/off, 1 or 5 passes; tree and return value must equal the sequential run and the reference bookkeeping; the evidence reports the distinct completion orders actually produced.",
         design_ref="DESIGN.md §4 C06",
-        note="Linux fork start method; ASLR adds address variation on top of the explicit variants; a nondeterminism that no variant provokes stays unobserved.",
+        note="Linux fork start method; ASLR adds address variation on top of the explicit variants; a nondeterminism that no variant provokes, or for which no input makes two candidates tie, stays unobserved (six such defects were found by reviewers and are repaired, DESIGN.md 9.6).",
     ),
     "C09": dict(
         technique="runtime trace check: the sequence x, f(x), ..., f^6(x) of real format_code applications is inspected for a fixed point by the fifth application and for revisited texts; the inner fixpoint loop is observed through H-rule",
         category="exploration",
         text="Repository examples, the construct zoo in several positions, 15 hand-written antagonistic inputs (if/else orientation vs early return vs redundant else, literal vs comprehension forms, blank-line rules vs black, import rules) and random concatenations of three of them, and standard-library files are each formatted six times in a row under 7 option vectors; x5 must equal x6 and no text may reappear after it was left. The histogram of first fixed indices and the number of inner _multi_run_fixes rounds are evidence.",
         design_ref="DESIGN.md §4 C09",
-        note="Bounded progress restated from the statement: fixed point within five applications (the tool's MAX_MODULE_PASSES).",
+        note="Bounded progress restated from the statement: fixed point within five applications (the tool's MAX_MODULE_PASSES); includes branch pairs for the if/else orientation heuristic and a module with more sites than 5 x 25 passes of a one-site-per-pass rule.",
     ),
     "C20": dict(
         technique="runtime post-condition monitor: literal line comparison of annotated physical lines before/after format_code with attribution of a lost line to the pipeline step (H-rule) and back-end (H-direct / H-sched) that dropped it; skip_file through library, format_file (audit hook: no open-for-write) and the --from-stdin subprocess",
         category="exploration",
         text="Programs on which rules fire (repository examples, antagonistic inputs, construct zoo) are annotated with `# pyrefact: ignore` on every annotatable physical line in turn (tokenize decides annotatability; 7 lines per program sampled in quick) and on random subsets, formatted under 4 option vectors, and each annotated line must appear verbatim, with multiplicity and relative order, in the output (~1.2k runs, ~1.8k annotated lines per quick run). 44 texts carrying `# pyrefact: skip_file` (own line, trailing, first/middle/last, inside a literal, invalid file, tabs) must come back byte-identical from format_code under 3 option vectors, must not be opened for writing by format_file and must be echoed by --from-stdin.",
         design_ref="DESIGN.md §4 C20",
-        note="Canonical comment spellings; the line, not the statement, has to survive.",
+        note="Every spelling of the comments that core.has_ignore_comment accepts; the line, not the statement, has to survive; --from-stdin must echo the text exactly.",
     ),
     "C01": dict(
         technique="runtime differential execution oracle: original and formatted program are both executed (stdout + termination compared) with attribution of a divergence to the first pipeline step (H-rule step trace) whose output behaves differently from its own input",
